@@ -91,6 +91,12 @@ Model/SharedCheck.vos Model/SharedCheck.vok Model/SharedCheck.required_vos: Mode
 Model/Canon.vo Model/Canon.glob Model/Canon.v.beautified Model/Canon.required_vo: Model/Canon.v Model/Term.vo
 Model/Canon.vio: Model/Canon.v Model/Term.vio
 Model/Canon.vos Model/Canon.vok Model/Canon.required_vos: Model/Canon.v Model/Term.vos
+Model/Quote.vo Model/Quote.glob Model/Quote.v.beautified Model/Quote.required_vo: Model/Quote.v 
+Model/Quote.vio: Model/Quote.v 
+Model/Quote.vos Model/Quote.vok Model/Quote.required_vos: Model/Quote.v 
+Model/QuoteCheck.vo Model/QuoteCheck.glob Model/QuoteCheck.v.beautified Model/QuoteCheck.required_vo: Model/QuoteCheck.v Model/Quote.vo
+Model/QuoteCheck.vio: Model/QuoteCheck.v Model/Quote.vio
+Model/QuoteCheck.vos Model/QuoteCheck.vok Model/QuoteCheck.required_vos: Model/QuoteCheck.v Model/Quote.vos
 Model/Loader.vo Model/Loader.glob Model/Loader.v.beautified Model/Loader.required_vo: Model/Loader.v 
 Model/Loader.vio: Model/Loader.v 
 Model/Loader.vos Model/Loader.vok Model/Loader.required_vos: Model/Loader.v 
@@ -223,6 +229,9 @@ Props/C05.vos Props/C05.vok Props/C05.required_vos: Props/C05.v Model/GoInt.vos 
 Proofs/Canon.vo Proofs/Canon.glob Proofs/Canon.v.beautified Proofs/Canon.required_vo: Proofs/Canon.v Model/Term.vo Model/Canon.vo
 Proofs/Canon.vio: Proofs/Canon.v Model/Term.vio Model/Canon.vio
 Proofs/Canon.vos Proofs/Canon.vok Proofs/Canon.required_vos: Proofs/Canon.v Model/Term.vos Model/Canon.vos
-Props/C06.vo Props/C06.glob Props/C06.v.beautified Props/C06.required_vo: Props/C06.v Model/Term.vo Model/Canon.vo Proofs/Canon.vo
-Props/C06.vio: Props/C06.v Model/Term.vio Model/Canon.vio Proofs/Canon.vio
-Props/C06.vos Props/C06.vok Props/C06.required_vos: Props/C06.v Model/Term.vos Model/Canon.vos Proofs/Canon.vos
+Proofs/Quote.vo Proofs/Quote.glob Proofs/Quote.v.beautified Proofs/Quote.required_vo: Proofs/Quote.v Model/Quote.vo
+Proofs/Quote.vio: Proofs/Quote.v Model/Quote.vio
+Proofs/Quote.vos Proofs/Quote.vok Proofs/Quote.required_vos: Proofs/Quote.v Model/Quote.vos
+Props/C06.vo Props/C06.glob Props/C06.v.beautified Props/C06.required_vo: Props/C06.v Model/Term.vo Model/Canon.vo Proofs/Canon.vo Model/Quote.vo Proofs/Quote.vo
+Props/C06.vio: Props/C06.v Model/Term.vio Model/Canon.vio Proofs/Canon.vio Model/Quote.vio Proofs/Quote.vio
+Props/C06.vos Props/C06.vok Props/C06.required_vos: Props/C06.v Model/Term.vos Model/Canon.vos Proofs/Canon.vos Model/Quote.vos Proofs/Quote.vos
